@@ -3,6 +3,9 @@ import itertools
 from .common import *  # noqa
 
 KEYS = {"comp_rates", "flow_rates"}
+# observations whose model value is the property's specified value (a disagreement there is a failing input);
+# on the others the correspondence supports the tie and the oracle searches for the failing input
+SPEC_KEYS = set()
 POOL = ["transition", "transition", "death", "importation", "crude_birth", "replacement_birth"]
 
 
